@@ -159,7 +159,11 @@ ADDENDA = {
     'C13': 'COMMAND LINE: which dialects `python -m rbql` hands to query_csv is modelled (Model/Cli.lean: cliDialects) and tied to the REAL run_with_python_csv (query_csv replaced by a recorder) for 25 delimiter spellings x {no policy, 5 policies} x {input, csv, tsv}: '
            'C13_cli_out_format_input (output dialect = input dialect), C13_cli_out_format_named, C13_cli_default_policy, C13_cli_delim_spelling. ',
     'C16': 'SHARED STATE made explicit: machines over module-level state g (steps may READ it); C16_frame_implies_independence: if no step writes g (the frame condition the regenerated footprint supports) every schedule gives the solo results; '
-           'C16_shared_write_counterexample / _history_counterexample: a step that records a decision in shared state (the shape of the seeded shared NumHandler) makes results depend on schedule and on history. ',
+           'C16_shared_write_counterexample / _history_counterexample: a step that records a decision in shared state (the shape of the seeded shared NumHandler) makes results depend on schedule and on history. '
+           'FOOTPRINT: the scanner follows aliases, elements of shallow copies, parameters and return values (taint), memoising decorators and function attributes, and also covers the front-end modules '
+           '(C16_frontends_no_shared_writes: rbql_csv / rbql_pandas / rbql_sqlite / rbql_main); histories include FROM queries (input from the registry) and all sequences of <= 3 (4) query_csv calls in which one relative join-table name denotes different files. ',
+    'C15': 'STDOUT AS A REAL PIPE: query_csv writing to a pipe whose reader is gone (results of 0 / 1 / 20 / 30000 records, so the break happens at the final flush or inside the loop) must return and leave no descriptor it opened behind (/proc/self/fd). ',
+    'C14': 'BOM END TO END: query_csv on files through the real decoders of both ports: the BOM warning appears iff the input / join table bytes begin with EF BB BF (utf-8 and latin-1, every policy, with and without header) and the mark never reaches the output. ',
     'C19': 'THE rbql.js ENGINE IS NOW MODELLED where it differs from the reference (Model/EngineJs.lean: JSON.stringify-keyed Set/Map for DISTINCT, stable_compare over keys+NR then reverse, compare_key_arrays of decoded group keys, JSON text of multi-column join keys, TopWriter ignoring its sub-writer); '
            'the JS legs of C01-C07 and C19 are answered by runJs, cross-checked against the reference on every case. C19_json_identifies_all_records (JSON.stringify is injective on the value model, incl. jsNumRepr on all of Q), '
            'C19_js_order_by_is_reference_order, C19_js_group_order_is_reference_order, C19_js_compare_agrees_on_uniform_keys (numbers / BMP strings), C19_js_astral_order_counterexample (UTF-16 vs code-point order). ',
